@@ -138,6 +138,11 @@ def snapshot (m, opts):
 def check_history (c):
     rng  = np.random.default_rng ([c ['seed'], 141, c ['i']])
     spec = loaded_model (rng)
+    # a third of the models with tapered wires (without limits): how a wire is cut does not depend on the frequencies
+    # the object has seen
+    rt = np.random.default_rng ([c ['seed'], 146, c ['i']])
+    if rt.random () < 0.33:
+        gen.taper_some (rt, spec, 0.6)
     MM   = common.repo ()
     lam  = gen.C_MHZ / spec ['f']
     f0   = spec ['f']
@@ -280,6 +285,18 @@ def check_sweep (c):
         extra += ['--near-field=%r,%r,%r,1,1,1,1,1,2' % (2 * lam, 2 * lam, 2 * lam), '--option', 'near-field', '--option', 'far-field']
         if rng.random () < 0.5:
             extra += ['--option', 'far-field-absolute', '--ff-distance', '500']
+    edge = c ['i'] % 3 == 0
+    if edge:
+        # a wire whose radius sits exactly on (or one float beside) the limit of 1e-4 wavelengths at one step of the
+        # sweep: which formulas the step uses is decided by its frequency f0 + k * increment, like in a run for it alone
+        f0  = float (rng.choice ([7.0, 14.1, 3.6, 21.3]))
+        inc = float (rng.choice ([0.1, 0.04, 0.3, 0.7, 0.01]))
+        n   = int (rng.integers (4, 7))
+        ks  = int (rng.integers (2, n))
+        r0  = 0.0001 * (299.8 / (f0 + ks * inc))
+        r   = [float (np.nextafter (r0, 0)), r0, float (np.nextafter (r0, np.inf)), float (np.nextafter (np.nextafter (r0, np.inf), np.inf))] [int (rng.integers (0, 4))]
+        spec = dict (f = f0, geo = [], media = None, loads = [], src = [])
+        argv = ['-f', repr (f0), '-w', '10,0,0,0,0,0,%r,%r' % (0.47 * 299.8 / f0, r), '--excitation-pulse', '5']
     rs = common.run_main (argv + extra + ['--frequency-steps', str (n), '--frequency-increment=%r' % inc])
     if rs ['kind'] == 'exception':
         raise common.Repo_Crash (rs ['exc'], 'main(sweep)')
@@ -304,8 +321,8 @@ def check_sweep (c):
             viol.append (dict (monitor = 'sweep-step', key = 'sweep-step', msg = 'step %d of the sweep (%.8g MHz) differs from a fresh single-frequency run: %r (lengths %d / %d)' % (k, f, diff, len (body), len (b1))))
             break
     kinds = '+'.join (sorted (set (l ['k'] + ('T' if l.get ('tag') else '') for l in spec ['loads'])))
-    return dict (status = 'violation' if viol else 'held', sig = 'sweep|%s|%s|n%d' % (kinds, 'gnd' if spec ['media'] else 'free', n)
-                , nontrivial = any (l ['k'] in ('skin', 'ins') for l in spec ['loads']), monitors = mon, violations = viol)
+    return dict (status = 'violation' if viol else 'held', sig = 'sweep|%s|%s|n%d%s' % (kinds, 'gnd' if spec ['media'] else 'free', n, '|edge' if edge else '')
+                , nontrivial = edge or any (l ['k'] in ('skin', 'ins') for l in spec ['loads']), monitors = mon, violations = viol)
 # end def check_sweep
 
 def check_procs (c):
